@@ -129,6 +129,7 @@ inductive Ev where
   | syncing (ans : Option Bool)    -- answer to the pending `NodeSyncing` call; `none`: error
   | wake                           -- the pending `clock.Sleep` returns
   | adv (d : Nat)                  -- the clock moves
+  | back (d : Nat)                 -- the clock is stepped BACK (wall-clock adjustment); pending timers keep their deadlines
   | tick                           -- the ticker goroutine runs (its timer fired)
   | take (pickQuit : Bool)         -- the `select` of `Run`
   | done                           -- `scheduleSlot` returns
@@ -179,6 +180,7 @@ def coreStep (bn : BN) (cfg : RCfg) (c : Core) : Ev → Core
     | .sSleep i _ => { c with phase := .sCall (i + 1) }
     | _ => c
   | .adv d => { c with now := c.now + d }
+  | .back d => { c with now := c.now - d }
   | .tick =>
     match c.tk with
     | .wait n =>
